@@ -143,6 +143,51 @@ def rule_public_lift(prog, rep, R):
         compare(rep, R, method_site(prog, c, m), f"AbstractDistribution.{m}", got, want, m)
 
 
+def rule_condition_declared(prog, rep, R="C06.cond-declared"):
+    """The vectoriser excludes the condition from the gufunc signature iff cond_shape is None.  A distribution whose
+    core hands its condition on to a member therefore has to DECLARE the condition shape (from that member): declared
+    as a constant None, a batched condition is passed whole to every element instead of being broadcast."""
+    import ast
+    from . import shapegrid
+    rep.rule(R, "a distribution whose _log_prob / _sample uses its condition argument does not declare cond_shape as the "
+                "class constant None; merge_cond_shapes keeps a rank-0 condition () apart from None (grid)", minimum=3)
+    seen = set()
+    for c in prog.subclasses(DIST):
+        if c.qualname in seen:
+            continue
+        seen.add(c.qualname)
+        uses = False
+        for mn in ("_log_prob", "_sample", "_sample_and_log_prob"):
+            fn = c.methods.get(mn)
+            if fn is None:
+                continue
+            params = [a.arg for a in fn.args.args]
+            if "condition" in params and any(isinstance(n, ast.Name) and n.id == "condition" and isinstance(n.ctx, ast.Load)
+                                             for st in fn.body for n in ast.walk(st)):
+                uses = True
+        if not uses:
+            continue
+        # the declaration the class itself (or the nearest base) makes
+        decl = None
+        for k in prog.mro(c):
+            fi = k.fields.get("cond_shape")
+            if fi is not None:
+                decl = ("classvar-none" if fi.classvar and isinstance(fi.default, ast.Constant) and fi.default.value is None
+                        else "field")
+                break
+            if "cond_shape" in k.properties:
+                decl = "property"
+                break
+        site = method_site(prog, c, "_log_prob") if "_log_prob" in c.methods else f"{c.module.relpath}:{c.node.lineno}"
+        rep.check(decl != "classvar-none", R, site, f"{c.name}:declares-its-condition",
+                  f"cond_shape is a {decl}",
+                  f"{c.name}'s core methods use `condition`, but the class declares cond_shape: ClassVar[None] = None: the "
+                  f"condition is left out of the vectoriser's signature, so a batch of conditions is handed whole to each "
+                  f"element (and contributes no batch shape to the keys)")
+    if not shapegrid.rule(prog, rep, R, "merge_cond_shapes"):
+        rep.holds(R, "flowjax/utils.py", "merge_cond_shapes:value", "compared as terms under C08.shape", nontrivial=False)
+
+
 def run(prog: Program, rep: Report, tier: str):
     c = prog.cls(DIST)
     rep.rule("C06.lift", "each public method is the jnp.vectorize lift of its private core (argument order "
@@ -176,6 +221,7 @@ def run(prog: Program, rep: Report, tier: str):
         compare(rep, "C06.lift", method_site(prog, vb, meth), f"_VectorizedBijection.{meth}", got, want,
                 "vectorised bijection method")
     rule_no_override(prog, rep)
+    rule_condition_declared(prog, rep)
     rep.rule("C06.keys", "_get_sample_keys returns reshape(split(key, max(1, prod(sample_shape + leading condition "
                          "shape))), (*key_shape, 2)) with the leading shape cut at -cond_ndim or None; on every path "
                          "(no shortcut that broadcasts one key); cond_ndim = None iff unconditional", minimum=3)
